@@ -14,17 +14,32 @@ Definition sub (T1 T2 : list (N * N)) : Prop := forall h id, nm_find h T1 = Some
 Lemma sub_refl T : sub T T. Proof. intros h id H; exact H. Qed.
 Lemma sub_trans a b c : sub a b -> sub b c -> sub a c. Proof. intros H1 H2 h id H. auto. Qed.
 
+(* the name table only grows; [named s n]: n has an id, and (with the name check of ce07816) the name
+   stored for that id is n itself *)
+Definition subn (N1 N2 : list (N * str)) : Prop := forall k nm, nm_find k N1 = Some nm -> nm_find k N2 = Some nm.
+Definition sub2 (s s' : cstate) : Prop := sub (cs_ids s) (cs_ids s') /\ subn (cs_names s) (cs_names s').
+Definition named (s : cstate) (n : str) : Prop :=
+  exists id, nm_find (handle_of_bytes n) (cs_ids s) = Some id /\
+             (global_name_checked = true -> nm_find (handle_from_u32 id) (cs_names s) = Some n).
+Lemma sub2_refl s : sub2 s s. Proof. split; intros ? ? H; exact H. Qed.
+Lemma sub2_trans a b c : sub2 a b -> sub2 b c -> sub2 a c.
+Proof. intros [A1 A2] [B1 B2]. split; intros ? ? H; auto. Qed.
+Lemma named_sub2 s s' n : named s n -> sub2 s s' -> named s' n.
+Proof. intros (id & A & B) [S1 S2]. exists id. split; [apply S1, A | intros Hf; apply S2, B, Hf]. Qed.
+Lemma named_found s n : named s n -> nm_find (handle_of_bytes n) (cs_ids s) <> None.
+Proof. intros (id & A & _). rewrite A. discriminate. Qed.
+
 Definition ctx (s : cstate) : Prop := cs_locals s = [[]] /\ cs_upvalues s = [[]] /\ cs_pc s = bytes (cs_code s).
 
 (* code, variable table, locals and upvalues are as before *)
 Definition keep4 (s s' : cstate) : Prop :=
   cs_code s' = cs_code s /\ cs_ids s' = cs_ids s /\ cs_locals s' = cs_locals s /\ cs_upvalues s' = cs_upvalues s /\
-  cs_pc s' = cs_pc s.
+  cs_pc s' = cs_pc s /\ cs_names s' = cs_names s.
 
 Definition emits (m : M unit) (names : list str) (code : list (N * N) -> list instr) : Prop :=
   forall s s', ctx s -> m s = ROk tt s' ->
-    ctx s' /\ sub (cs_ids s) (cs_ids s') /\
-    (forall n, In n names -> nm_find (handle_of_bytes n) (cs_ids s') <> None) /\
+    ctx s' /\ sub2 s s' /\
+    (forall n, In n names -> named s' n) /\
     (forall T, sub (cs_ids s') T -> cs_code s' = rev (code T) ++ cs_code s).
 
 Lemma bind_ok {A B} (m : M A) (f : A -> M B) s b s' :
@@ -37,17 +52,16 @@ Proof.
   intros H1 H2 s s' Hc H. apply bind_ok in H. destruct H as ([] & s1 & E1 & E2).
   destruct (H1 _ _ Hc E1) as (Hc1 & Hs1 & Hn1 & Hk1).
   destruct (H2 _ _ Hc1 E2) as (Hc2 & Hs2 & Hn2 & Hk2).
-  split; [exact Hc2|]. split; [eapply sub_trans; eauto|]. split.
+  split; [exact Hc2|]. split; [eapply sub2_trans; eauto|]. split.
   - intros n Hin. apply in_app_or in Hin. destruct Hin as [Hin|Hin]; [|auto].
-    specialize (Hn1 n Hin). destruct (nm_find (handle_of_bytes n) (cs_ids s1)) as [id|] eqn:E; [|congruence].
-    rewrite (Hs2 _ _ E). discriminate.
-  - intros T HT. rewrite (Hk2 T HT), (Hk1 T (sub_trans _ _ _ Hs2 HT)), rev_app_distr, app_assoc. reflexivity.
+    eapply named_sub2; [apply Hn1, Hin | exact Hs2].
+  - intros T HT. rewrite (Hk2 T HT), (Hk1 T (sub_trans _ _ _ (proj1 Hs2) HT)), rev_app_distr, app_assoc. reflexivity.
 Qed.
 
 Lemma emits_nop m : (forall s s', m s = ROk tt s' -> keep4 s s') -> emits m [] (fun _ => []).
 Proof.
-  intros H s s' (Hl & Hu & Hp) E. destruct (H _ _ E) as (a & b & c & d & e).
-  split; [repeat split; congruence|]. split; [rewrite b; apply sub_refl|]. split; [intros n []|].
+  intros H s s' (Hl & Hu & Hp) E. destruct (H _ _ E) as (a & b & c & d & e & f).
+  split; [repeat split; congruence|]. split; [unfold sub2; rewrite b, f; apply sub2_refl|]. split; [intros n []|].
   intros T _. rewrite a. reflexivity.
 Qed.
 
@@ -63,7 +77,7 @@ Lemma emits_push i : emits (push_instr i) [] (fun _ => [i]).
 Proof.
   intros s s' (Hl & Hu & Hp) E. rewrite push_instr_eq in E. injection E as <-.
   split; [repeat split; [exact Hl | exact Hu | cbn [pushed cs_pc cs_code set_code set_trace bytes]; unfold spanN; rewrite Hp; lia]|].
-  split; [apply sub_refl|]. split; [intros n []|].
+  split; [split; intros ? ? H; exact H|]. split; [intros n []|].
   intros T _. reflexivity.
 Qed.
 
@@ -91,36 +105,61 @@ Proof.
 Qed.
 
 (* the id of a global *)
+Lemma str_eqb_true a b : str_eqb a b = true -> a = b.
+Proof. intros H. apply (proj1 (list_eqb_spec N.eqb N.eqb_eq a b)) in H. exact H. Qed.
+
 Lemma global_id_spec n s id s' :
   global_id n s = ROk id s' ->
   cs_code s' = cs_code s /\ cs_locals s' = cs_locals s /\ cs_upvalues s' = cs_upvalues s /\
-  nm_find (handle_of_bytes n) (cs_ids s') = Some id /\ sub (cs_ids s) (cs_ids s') /\ cs_pc s' = cs_pc s.
+  nm_find (handle_of_bytes n) (cs_ids s') = Some id /\ sub (cs_ids s) (cs_ids s') /\ cs_pc s' = cs_pc s /\
+  subn (cs_names s) (cs_names s') /\
+  (global_name_checked = true -> nm_find (handle_from_u32 id) (cs_names s') = Some n).
 Proof.
   unfold global_id, bind, handle_from_bytes_m.
+  assert (Hins : forall k (nm0 : str) (m : list (N * str)), nm_find k m = None -> subn m (nm_insert k nm0 m)).
+  { intros k nm0 m Hk k' x Hx. rewrite nm_find_insert. destruct (N.eqb_spec k' k) as [->|]; [congruence | exact Hx]. }
+  assert (Hchk : forall nm (s0 : cstate) i s1, name_checked nm n i s0 = ROk id s1 ->
+            i = id /\ s1 = s0 /\ (global_name_checked = true -> nm = n)).
+  { intros nm s0 i s1. unfold name_checked. destruct (global_name_checked && negb (str_eqb nm n)) eqn:Eg; [discriminate|].
+    intros E; injection E as <- <-. repeat split. intros Hf. rewrite Hf in Eg. cbn [andb] in Eg.
+    apply negb_false_iff in Eg. apply str_eqb_true, Eg. }
+  assert (Hrefl : forall m : list (N * str), subn m m) by (intros m ? ? H; exact H).
   destruct (nm_find (handle_of_bytes n) (cs_ids s)) as [id0|] eqn:Ef.
-  - destruct (nm_find _ (cs_names s)) as [nm|];
-      [unfold name_checked; destruct (global_name_checked && negb (str_eqb nm n)); [discriminate|]
-      |destruct (ht_entry_hangs (cs_names s)); [discriminate|]];
-      intros E; injection E as <- <-; cbn; repeat split; auto; apply sub_refl.
+  - destruct (nm_find (handle_from_u32 id0) (cs_names s)) as [nm|] eqn:En.
+    + intros E. destruct (Hchk _ _ _ _ E) as (<- & -> & Hnm). cbn.
+      split; [reflexivity|]. split; [reflexivity|]. split; [reflexivity|]. split; [exact Ef|].
+      split; [apply sub_refl|]. split; [reflexivity|]. split; [apply Hrefl|].
+      intros Hf. rewrite <- (Hnm Hf). exact En.
+    + destruct (ht_entry_hangs (cs_names s)); [discriminate|].
+      intros E; injection E as <- <-; cbn.
+      split; [reflexivity|]. split; [reflexivity|]. split; [reflexivity|]. split; [exact Ef|].
+      split; [apply sub_refl|]. split; [reflexivity|]. split; [apply Hins, En|].
+      intros _. apply nm_find_insert_same.
   - destruct (ht_entry_hangs (cs_ids s)); [discriminate|].
     assert (Hsub : sub (cs_ids s) (nm_insert (handle_of_bytes n) (cs_next_var s) (cs_ids s))).
     { intros h x Hx. rewrite nm_find_insert. destruct (N.eqb_spec h (handle_of_bytes n)) as [->|]; [congruence | exact Hx]. }
-    destruct (nm_find _ (cs_names s)) as [nm|];
-      [unfold name_checked; destruct (global_name_checked && negb (str_eqb nm n)); [discriminate|]
-      |destruct (ht_entry_hangs (cs_names s)); [discriminate|]];
-      intros E; injection E as <- <-; cbn; repeat split; auto; apply nm_find_insert_same.
+    destruct (nm_find (handle_from_u32 (cs_next_var s)) (cs_names s)) as [nm|] eqn:En.
+    + intros E. destruct (Hchk _ _ _ _ E) as (<- & -> & Hnm). cbn.
+      split; [reflexivity|]. split; [reflexivity|]. split; [reflexivity|]. split; [apply nm_find_insert_same|].
+      split; [exact Hsub|]. split; [reflexivity|]. split; [apply Hrefl|].
+      intros Hf. rewrite <- (Hnm Hf). exact En.
+    + destruct (ht_entry_hangs (cs_names s)); [discriminate|].
+      intros E; injection E as <- <-; cbn.
+      split; [reflexivity|]. split; [reflexivity|]. split; [reflexivity|]. split; [apply nm_find_insert_same|].
+      split; [exact Hsub|]. split; [reflexivity|]. split; [apply Hins, En|].
+      intros _. apply nm_find_insert_same.
 Qed.
 
 Lemma emits_global n (k : N -> instr) :
   emits (do id <- global_id n ;; push_instr (k id)) [n] (fun T => [k (idT T n)]).
 Proof.
   intros s s' (Hl & Hu & Hp) E. apply bind_ok in E. destruct E as (id & s1 & E1 & E2).
-  destruct (global_id_spec _ _ _ _ E1) as (A & B & C & D & S1 & Pc1).
+  destruct (global_id_spec _ _ _ _ E1) as (A & B & C & D & S1 & Pc1 & Sn & Nm).
   rewrite push_instr_eq in E2. injection E2 as <-.
   split; [split; [cbn; congruence | split; [cbn; congruence|]]|].
   { cbn [pushed cs_pc cs_code set_code set_trace bytes]. unfold spanN. rewrite Pc1, Hp, A. lia. }
-  split; [exact S1|]. split.
-  - intros x [<-|[]]. cbn. rewrite D. discriminate.
+  split; [split; [exact S1 | exact Sn]|]. split.
+  - intros x [<-|[]]. exists id. split; [exact D | exact Nm].
   - intros T HT. cbn. unfold idT. rewrite (HT _ _ D), A. reflexivity.
 Qed.
 
@@ -241,8 +280,8 @@ Qed.
 
 Lemma emits_scope_end : emits scope_end [] (fun _ => []).
 Proof.
-  intros s s' Hcx E. destruct (keep4_scope_end _ _ Hcx E) as (a & b & c & d & e). destruct Hcx as (Hl & Hu & Hp).
-  split; [repeat split; congruence|]. split; [rewrite b; apply sub_refl|]. split; [intros n []|].
+  intros s s' Hcx E. destruct (keep4_scope_end _ _ Hcx E) as (a & b & c & d & e & f). destruct Hcx as (Hl & Hu & Hp).
+  split; [repeat split; congruence|]. split; [unfold sub2; rewrite b, f; apply sub2_refl|]. split; [intros n []|].
   intros T _. rewrite a. reflexivity.
 Qed.
 
@@ -300,6 +339,18 @@ Proof.
 Qed.
 Global Opaque std_firs.
 
+(* with the name check, names that got ids have pairwise distinct handles *)
+Lemma named_inj s names :
+  global_name_checked = true -> (forall n, In n names -> named s n) -> handles_inj names = true.
+Proof.
+  intros Hf H. unfold handles_inj. apply forallb_forall. intros a Ha. apply forallb_forall. intros b Hb.
+  destruct (N.eqb_spec (handle_of_bytes a) (handle_of_bytes b)) as [E|]; [|reflexivity]. cbn [implb].
+  destruct (H a Ha) as (ia & A1 & A2). destruct (H b Hb) as (ib & B1 & B2).
+  rewrite E in A1. rewrite A1 in B1. injection B1 as <-.
+  specialize (A2 Hf). specialize (B2 Hf). rewrite A2 in B2. injection B2 as <-.
+  apply (proj2 (list_eqb_spec N.eqb N.eqb_eq a a)). reflexivity.
+Qed.
+
 (* ------------------------------------------------------------------ the compiled program *)
 Lemma stage_1_ctx fs : forall s0 s1, stage_1 fs s0 = ROk tt s1 ->
   cs_locals s1 = cs_locals s0 /\ cs_upvalues s1 = cs_upvalues s0.
@@ -316,7 +367,8 @@ Theorem compile_f1_shape M B :
     p_bytecode B = encode (code_main (p_ids B) (main_cards M) ++ IExit :: rest) /\
     (forall n, In n (main_names (main_cards M)) -> nm_find (handle_of_bytes n) (p_ids B) <> None) /\
     (forall h1 h2 id, nm_find h1 (p_ids B) = Some id -> nm_find h2 (p_ids B) = Some id -> h1 = h2) /\
-    (forall h id, nm_find h (p_ids B) = Some id -> id < two32).
+    (forall h id, nm_find h (p_ids B) = Some id -> id < two32) /\
+    handles_inj (main_names (main_cards M)) = true.
 Proof.
   intros HM HB Hlen. destruct M as [subs funs imps]. cbn [in_f1] in HM.
   destruct subs; [|discriminate]. destruct funs as [|[name f] [|]]; try discriminate.
@@ -358,14 +410,15 @@ Proof.
   destruct (g_ids _ _ _ Gs Hlen) as [Inv Ilt Iinj Iext].
   destruct (g_code _ _ _ Gs) as [l El].
   assert (Hsub : sub (cs_ids s2) (cs_ids s)) by exact Iext.
-  exists (rev l). split; [|split; [|split]].
+  exists (rev l). split; [|split; [|split; [|split]]].
   - f_equal. rewrite El, (Hcode2 _ Hsub), c1. cbn [s0 init_state cs_code]. rewrite app_nil_r, rev_app_distr, rev_involutive.
     rewrite <- app_assoc. reflexivity.
-  - intros n Hin. specialize (Hnames2 n Hin).
+  - intros n Hin. pose proof (named_found _ _ (Hnames2 n Hin)) as Hnf.
     destruct (nm_find (handle_of_bytes n) (cs_ids s2)) as [id|] eqn:En; [|congruence].
     rewrite (Hsub _ _ En). discriminate.
   - exact Iinj.
   - intros h id Hf. specialize (Ilt _ _ Hf). rewrite Inv in Ilt. lia.
+  - apply (named_inj s2 _ eq_refl Hnames2).
 Qed.
 
 Lemma in_f1_cards M : in_f1 M = true -> forallb stmt_f1 (main_cards M) = true.
